@@ -505,13 +505,67 @@ def timed_cases():
                                   "calls": st.integers(1, 2)})
 
 
+# ---- fire and forget: the requester keeps no reference to the result, only its callbacks -----------------------------------
+def check_forgotten(case, rec):
+    import gc
+    import rpyc
+    from rpyc.core import consts
+    from rpyc.core.channel import Channel
+    rec.case(case, True, ["forgotten-result", "reply:" + case["kind"], "callbacks:%d" % case["ncb"],
+                          "timeout:%s" % ("none" if case["timeout"] is None else "finite")])
+    k = sk.Kernel(max_time=500.0)
+    cblog = []
+    problems = []
+    with k.installed():
+        link = sk.Link(k)
+        conn = rpyc.VoidService()._connect(Channel(link.a), {})
+        peer = RawPeer(link.b, strict=False)
+
+        def peer_task():
+            m = peer.recv_msg()
+            k.sleep(case["at"])
+            if case["kind"] == "value":
+                peer.reply(m[1], box_value("the-value"))
+            else:
+                peer.exception(m[1], (("builtins", "KeyError"), ("the-error",), (), "tb"))
+            while True:
+                peer.recv_msg()
+
+        def driver():
+            res = conn.async_request(consts.HANDLE_PING, "tok", timeout=case["timeout"])
+            for i in range(case["ncb"]):
+                res.add_callback(lambda r_, i=i: cblog.append([i, k.now, bool(r_.ready), bool(r_.error)]))
+            del res
+            gc.collect()
+            k.sleep(case["at"] + 0.5)
+            conn.poll_all(0)
+        k.spawn(peer_task, name="peer", daemon=True)
+        t = k.spawn(driver, name="driver")
+        k.run()
+        if t.exc is not None:
+            problems.append(Failure("driver-raised", type(t.exc).__name__, case, t.exc_tb[-300:]))
+        conn._closed = True
+    want = [[i, True, case["kind"] == "exc"] for i in range(case["ncb"])]
+    got = [[c[0], c[2], c[3]] for c in cblog]
+    if not problems and got != want:
+        problems.append(Failure("callbacks", "ran %s, statement says %s (result not retained by the requester)" %
+                                ([c[0] for c in cblog], list(range(case["ncb"]))), case, cblog))
+    return problems
+
+
+def forgotten_cases():
+    return st.fixed_dictionaries({"part": st.just("forgotten"), "kind": st.sampled_from(["value", "exc"]), "ncb": st.integers(1, 3),
+                                  "at": st.sampled_from([0.0, 0.1, 1.0, 5.0]), "timeout": st.sampled_from([None, None, 30, 100])})
+
+
 def plan(tier, scale):
     if tier == "quick":
         ne, ns, nt, sh = 300, 60, 60, 8
     else:
         ne, ns, nt, sh = 12000, 1000, 1000, 12
     return ([{"part": "events", "n": int(ne * scale)} for _ in range(sh)] + [{"part": "sync", "n": int(ns * scale)}]
-            + [{"part": "timed", "n": int(nt * scale)}] + [{"part": "held", "n": int(nt * scale)}])
+            + [{"part": "timed", "n": int(nt * scale)}] + [{"part": "held", "n": int(nt * scale)}]
+            + [{"part": "forgotten", "n": int(nt * scale)}])
 
 
 def run_shard(desc, seed, rec, tier):
@@ -521,9 +575,12 @@ def run_shard(desc, seed, rec, tier):
         drive(rec, held_cases(), lambda c: check_held(c, rec), desc["n"], seed)
     elif desc["part"] == "sync":
         drive(rec, sync_cases(), lambda c: check_sync(c, rec), desc["n"], seed)
+    elif desc["part"] == "forgotten":
+        drive(rec, forgotten_cases(), lambda c: check_forgotten(c, rec), desc["n"], seed)
     else:
         drive(rec, timed_cases(), lambda c: check_timed(c, rec), desc["n"], seed)
 
 
 def replay(case, rec):
-    return {"events": check_events, "sync": check_sync, "timed": check_timed, "held": check_held}[case["part"]](case, rec)
+    return {"events": check_events, "sync": check_sync, "timed": check_timed, "held": check_held,
+            "forgotten": check_forgotten}[case["part"]](case, rec)
